@@ -1,7 +1,9 @@
 package roundtrip
 
 import (
+	"bytes"
 	"fmt"
+	"io"
 	"strconv"
 	"strings"
 
@@ -150,7 +152,7 @@ func runC13(t *rapid.T) {
 	w := &tee{p: pipe}
 	var werr error
 	var got qframe.QFrame
-	s.Go("writer", func() {
+	doWrite := func(w io.Writer) error {
 		var opts []csv.ToConfigFunc
 		if !tr.Header {
 			opts = append(opts, csv.Header(false))
@@ -158,10 +160,18 @@ func runC13(t *rapid.T) {
 		if tr.Columns != nil {
 			opts = append(opts, csv.Columns(tr.Columns))
 		}
-		werr = qf.ToCSV(w, opts...)
+		return qf.ToCSV(w, opts...)
+	}
+	s.Go("writer", func() {
+		werr = doWrite(w)
 		pipe.CloseWithError(werr)
 	})
+	var doRead func(r io.Reader) qframe.QFrame
 	s.Go("reader", func() {
+		got = doRead(pipe)
+		pipe.CloseRead()
+	})
+	doRead = func(r io.Reader) qframe.QFrame {
 		types := map[string]string{}
 		enumVals := map[string][]string{}
 		for i, n := range src.Names {
@@ -177,14 +187,25 @@ func runC13(t *rapid.T) {
 		if !tr.Header {
 			opts = append(opts, csv.Headers(append([]string{}, order...)))
 		}
-		got = qframe.ReadCSV(pipe, opts...)
-		pipe.CloseRead()
-	})
+		return qframe.ReadCSV(r, opts...)
+	}
 	ok := s.Run()
 	core.Steps(int(s.Steps))
+	chunks := pipe.Chunks
+	if pipe.ForeignUse() {
+		// the library did its I/O on a goroutine of its own: no schedule of
+		// ours can include it. Same round trip, same oracle, no scheduler.
+		core.Probe("library-goroutine-did-the-io:sequential-round-trip")
+		var buf bytes.Buffer
+		werr = doWrite(&buf)
+		w.all = buf.Bytes()
+		cr := &simio.ChunkReader{B: append([]byte{}, w.all...), N: tr.PipeCap}
+		got = doRead(cr)
+		chunks, ok = cr.Chunks, true
+	}
 	tr.Written = fmt.Sprintf("%q", w.all)
-	tr.Chunks = pipe.Chunks
-	core.Event(w.all, fmt.Sprint(pipe.Chunks), s.Digest(), fmt.Sprint(obs.Of(got)))
+	tr.Chunks = chunks
+	core.Event(w.all, fmt.Sprint(chunks), s.Digest(), fmt.Sprint(obs.Of(got)))
 	if p := s.FirstPanic(); p != nil {
 		core.Violation(t, "C13:panic:"+p.Name, fmt.Sprintf("%s panicked: %v\n%s", p.Name, p.Panic, p.PanicStack), tr)
 		return
@@ -193,11 +214,11 @@ func runC13(t *rapid.T) {
 		core.Violation(t, "C13:liveness", fmt.Sprintf("writer/reader did not finish (deadlock=%v overrun=%v)", s.Deadlock, s.Overrun), tr)
 		return
 	}
-	if len(pipe.Chunks) > 1 {
+	if len(chunks) > 1 {
 		core.Probe("reader-saw-multiple-chunks")
-		core.Nontrivial(core.Hash64(w.all, fmt.Sprint(pipe.Chunks), tr.EmptyNull))
+		core.Nontrivial(core.Hash64(w.all, fmt.Sprint(chunks), tr.EmptyNull))
 		if len(w.all) < 100 {
-			core.Sample(map[string]interface{}{"written": string(w.all), "chunks": pipe.Chunks, "pipe_cap": tr.PipeCap, "policy": desc, "empty_null": tr.EmptyNull, "header": tr.Header})
+			core.Sample(map[string]interface{}{"written": string(w.all), "chunks": chunks, "pipe_cap": tr.PipeCap, "policy": desc, "empty_null": tr.EmptyNull, "header": tr.Header})
 		}
 	}
 	if s.Switches > 2 {
